@@ -1,0 +1,64 @@
+//go:build verif
+
+package light
+
+// Contracts for the deductive checks in /verif (read by /verif/govc; comment-only, no code).
+
+//@ import types github.com/tendermint/tendermint/types
+
+//@ func HeaderExpired
+//@   assigns nothing
+//@   ensures def: result <==> h.Header.Time + trustingPeriod <= now
+
+// A trust level is accepted only between one third and one.
+//@ func ValidateTrustLevel
+//@   assigns nothing
+//@   ensures range: result == nil ==> (lvl.Denominator != 0 && lvl.Numerator <= lvl.Denominator && 3 * lvl.Numerator >= lvl.Denominator)
+
+// newOK: the checks every new header must pass relative to the trusted one.
+//@ spec func newOK(nh *types.SignedHeader, nv *types.ValidatorSet, th *types.SignedHeader, now int64, drift int64) bool =
+//@   | nh.Header != nil && nh.Commit != nil && nh.Header.ChainID == th.Header.ChainID && nh.Commit.Height == nh.Header.Height && nh.Commit.BlockID.Hash == types.Header.Hash(nh.Header) &&
+//@   | nh.Header.Height > th.Header.Height && nh.Header.Time > th.Header.Time && nh.Header.Time < now + drift && nh.Header.ValidatorsHash == types.ValidatorSet.Hash(nv)
+// signedByOwn: +2/3 of the header's own validator set signed exactly its commit's block id at its height.
+//@ spec func signedByOwn(nh *types.SignedHeader, nv *types.ValidatorSet, chainID string) bool =
+//@   | len(nh.Commit.Signatures) == len(nv.Validators) &&
+//@   | exists(k, 0, len(nh.Commit.Signatures) + 1, 3 * tally(nv, nh.Commit, chainID, k) > 2 * totalPower(nv, len(nv.Validators)))
+
+//@ func verifyNewHeaderAndVals
+//@   requires wf: untrustedHeader != nil && trustedHeader != nil && trustedHeader.Header != nil && untrustedVals != nil
+//@   assigns nothing
+//@   ensures ok: result == nil ==> newOK(untrustedHeader, untrustedVals, trustedHeader, now, maxClockDrift)
+
+// One verification step to the NEXT height: not expired, new header checks, validator hash chained from the trusted
+// header, and +2/3 of the new header's own set signed it.
+//@ func VerifyAdjacent
+//@   requires wf: untrustedHeader != nil && trustedHeader != nil && trustedHeader.Header != nil && untrustedVals != nil && wfPowers(untrustedVals) && wfCached(untrustedVals)
+//@   assigns untrustedVals.totalVotingPower
+//@   ensures adjacent: result == nil ==> untrustedHeader.Header.Height == trustedHeader.Header.Height + 1
+//@   ensures period: result == nil ==> trustedHeader.Header.Time + trustingPeriod > now
+//@   ensures newhdr: result == nil ==> newOK(untrustedHeader, untrustedVals, trustedHeader, now, maxClockDrift)
+//@   ensures chained: result == nil ==> untrustedHeader.Header.ValidatorsHash == trustedHeader.Header.NextValidatorsHash
+//@   ensures signed: result == nil ==> signedByOwn(untrustedHeader, untrustedVals, trustedHeader.Header.ChainID)
+
+// One skipping step: not expired, new header checks, at least the trust level of the TRUSTED set signed the new commit
+// (distinct signers), and +2/3 of the new header's own set signed it.
+//@ func VerifyNonAdjacent
+//@   requires wf: untrustedHeader != nil && trustedHeader != nil && trustedHeader.Header != nil && untrustedVals != nil && trustedVals != nil && wfPowers(untrustedVals) && wfCached(untrustedVals) && wfPowers(trustedVals) && wfCached(trustedVals)
+//@   requires sz: untrustedHeader.Commit != nil ==> len(untrustedHeader.Commit.Signatures) <= 2147483647
+//@   assigns untrustedVals.totalVotingPower, trustedVals.totalVotingPower
+//@   ensures nonadjacent: result == nil ==> untrustedHeader.Header.Height != trustedHeader.Header.Height + 1
+//@   ensures period: result == nil ==> trustedHeader.Header.Time + trustingPeriod > now
+//@   ensures newhdr: result == nil ==> newOK(untrustedHeader, untrustedVals, trustedHeader, now, maxClockDrift)
+//@   ensures trusting: result == nil ==> exists(k, 0, len(untrustedHeader.Commit.Signatures) + 1,
+//@     | trustTally(trustedVals, untrustedHeader.Commit, trustedHeader.Header.ChainID, k) * trustLevel.Denominator > totalPower(trustedVals, len(trustedVals.Validators)) * trustLevel.Numerator &&
+//@     | distinctSigners(trustedVals, untrustedHeader.Commit, k))
+//@   ensures signed: result == nil ==> signedByOwn(untrustedHeader, untrustedVals, trustedHeader.Header.ChainID)
+
+// Backwards step: the older header is well formed, of the same chain, earlier in time, and is the block the trusted
+// header points back to.
+//@ func VerifyBackwards
+//@   requires wf: untrustedHeader != nil && trustedHeader != nil
+//@   assigns nothing
+//@   ensures chain: result == nil ==> untrustedHeader.ChainID == trustedHeader.ChainID
+//@   ensures time: result == nil ==> untrustedHeader.Time < trustedHeader.Time
+//@   ensures link: result == nil ==> types.Header.Hash(untrustedHeader) == trustedHeader.LastBlockID.Hash
